@@ -870,7 +870,7 @@ theorem numEM_sem (ctx : Spec.Ctx) {e : Ast} (he : NumEM d ctx F e) (fl : Flags)
 end Corollaries
 
 /-- **C08 (full fragment)**: with `count` over flat paths; the standing assumptions are those of
-C01 (well-formed document, valid context node, `NamespaceURL()` implemented, no hash collision,
+C01 (well-formed document, valid context node, `NamespaceURL()` implemented, injective node keys (`hashInj_holds`),
 the `//name` shortcut guarded by its node test) -/
 theorem numEF_sem {d : Doc} (wf : WF d) (cfg : ECfg) (hns : cfg.nsIface = true)
     (hinj : HashInj d cfg) (regexOk : RegexOk) (limit : Nat) (sdf : Bool)
